@@ -1,5 +1,7 @@
 (* C12 — constructors and conversions give the specified contents,
-   independently owned: new is empty; from an array / iterator keeps the last N
+   independently owned: new, default and boxed are empty (the harness moves the
+   result into place and destroys the old buffer; boxed allocates once, first);
+   from an array / iterator keeps the last N
    elements (same identities) and destroys the rest once; clone, clone_from and
    to_vec make element-wise clones with fresh identities, source unchanged;
    into_iter yields the original elements in order.
@@ -7,13 +9,23 @@
 From CB Require Import Spec Unstable.
 From Coq Require Import Permutation.
 From CBP Require Import Step RefDefs C02Lemmas Arith AbsLemmas AllOps FaultDefs FaultPrims FaultDropA FaultDropB FaultUser
-     Iters DrainP ExtendIo CmpHash Ctors PhysMoves UnstableEq Access Views RefTruncate FillExtend FaultFrame SpecCorollaries.
+     Iters DrainP ExtendIo CmpHash Ctors PhysMoves MoreOps UnstableEq Access Views RefTruncate FillExtend FaultFrame SpecCorollaries.
 
 
 Theorem C12_new :
   refines_op ONew.
 Proof. exact (exec_refines (ONew)). Qed.
 Print Assumptions C12_new.
+
+Theorem C12_default :
+  refines_op ODefault.
+Proof. exact (exec_refines (ODefault)). Qed.
+Print Assumptions C12_default.
+
+Theorem C12_boxed :
+  refines_op OBoxed.
+Proof. exact (exec_refines (OBoxed)). Qed.
+Print Assumptions C12_boxed.
 
 Theorem C12_from_array :
   forall xs, refines_op (OFromArray xs).
